@@ -1,0 +1,22 @@
+//go:build verif
+
+// Contracts for the verification engine in /verif (govc). This file contains comments only:
+// it adds no code with or without the build tag "verif". Syntax: DESIGN.md section 3.2.
+
+package cafs
+
+//@ pred wfWriter(w) = w.leafSize > 0 && len(w.buf) == w.leafSize && 0 <= w.offset && w.offset < len(w.buf)
+
+//@ func (*fsWriter).writeBlob
+//@   modifies store
+//@   note frame assumed: w.pather and the metrics calls do not write writer state
+
+//@ func (*fsWriter).Write
+//@   requires wfWriter(w)
+//@   ensures [result] err == nil && n == len(p)
+//@   ensures [wf] wfWriter(w)
+//@   ensures [stream] w.count*w.leafSize + w.offset == old(w.count*w.leafSize + w.offset) + len(p)
+//@   loop 1 invariant [wf] wfWriter(w)
+//@   loop 1 invariant [written] 0 <= written && written <= len(p)
+//@   loop 1 invariant [stream] w.count*w.leafSize + w.offset == old(w.count*w.leafSize + w.offset) + written
+//@   loop 1 decreases len(p) - written
